@@ -170,7 +170,7 @@ func init() {
 		Pkgs: []string{"root"},
 		Items: func(tier string, seed int64) []Item {
 			var it []Item
-			for _, l := range pick(tier, rng(0, 40), rng(0, 256)) {
+			for _, l := range pick(tier, append(rng(0, 40), 64, 100, 128, 200, 254, 255, 256), rng(0, 256)) {
 				it = append(it, Item{PkgKey: "root", Func: "VerifC08_Canonical", Shape: []int{l}})
 			}
 			return it
@@ -674,7 +674,7 @@ func init() {
 					it = append(it, Item{PkgKey: "root", Func: "VerifC09_MACPayload", Shape: []int{i, l}})
 				}
 			}
-			for _, n := range pick(tier, []int{0, 1, 2, 3, 6, 8}, append(rng(0, 10), 16, 32, 34)) {
+			for _, n := range pick(tier, rng(0, 36), append(rng(0, 36), 40, 48, 64, 66)) {
 				it = append(it, Item{PkgKey: "root", Func: "VerifC09_IdentText", Shape: []int{n}})
 			}
 			for _, pk := range []string{"clocksync", "multicastsetup", "fragmentation", "firmwaremanagement"} {
@@ -737,8 +737,12 @@ func init() {
 				it = append(it, Item{PkgKey: "root", Func: "VerifC10_ReuseMAC", Shape: []int{i}})
 			}
 			it = append(it, Item{PkgKey: "root", Func: "VerifC10_ReuseCFList", Shape: []int{0}}, Item{PkgKey: "root", Func: "VerifC10_ReuseCFList", Shape: []int{1}})
-			for _, l := range rng(1, 3) {
+			for _, l := range rng(0, 3) {
 				it = append(it, Item{PkgKey: "root", Func: "VerifC10_Locks", Shape: []int{l}})
+			}
+			// decoded proprietary payloads are independent objects (shared with C07)
+			for _, sz := range []int{1, 2, 5} {
+				it = append(it, Item{PkgKey: "root", Func: "VerifC07_ProprietaryTwice", Shape: []int{sz}})
 			}
 			for mt := 0; mt < 4; mt++ {
 				for _, nfo := range []int{0, 3, 15} {
@@ -885,6 +889,16 @@ func init() {
 							it = append(it, Item{PkgKey: "joinserver", Func: "VerifC16_Rejoin", Shape: []int{typ, cf, a, n}})
 						}
 					}
+				}
+			}
+			for kind := 0; kind <= 2; kind++ {
+				for _, l := range []int{0, 16, 24, 32} {
+					it = append(it, Item{PkgKey: "joinserver", Func: "VerifC16_HandlerKEK", Shape: []int{kind, l}})
+				}
+			}
+			for form := 0; form <= 2; form++ {
+				for on := 0; on <= 1; on++ {
+					it = append(it, Item{PkgKey: "joinserver", Func: "VerifC16_IDForms", Shape: []int{form, on}})
 				}
 			}
 			// handler layer (ServeHTTP with the JSON contract model): pairs of requests, one after the other and nested
